@@ -635,7 +635,11 @@ fn c02_check_once(s: &mut Sink, c: &MemCase, l: &Layout, a: &Arena, first: bool)
                 return;
             }
             s.outcome("err", 1);
-            if exp == Expect::Inside {
+            if exp == Expect::Inside && c.r10_shift != 0 {
+                // a program that writes r10 is loadable only under a permissive verifier; an interpreter
+                // that refuses to run it (or the write) refuses nothing C02 speaks about
+                s.outcome("err-in-a-program-that-moves-r10(not attributed to the access)", 1);
+            } else if exp == Expect::Inside {
                 s.violation(&format!("interp/{class}/refused-in-bounds-access"), format!("an access of {} bytes wholly inside a region was refused: {e}", c.w), rp());
             }
             if after != before || !canaries {
@@ -779,6 +783,12 @@ pub fn c11_check(s: &mut Sink, c: &MemCase, l: &Layout, a: &Arena) {
     });
     let mut vm = match compiled {
         Ok(Ok(v)) => v,
+        Ok(Err(_)) if c.r10_shift != 0 => {
+            // only a permissive verifier loads a program that writes r10: C11 speaks of compiled
+            // programs, not of what must compile
+            s.outcome("compile-refused-a-program-that-moves-r10", 1);
+            return;
+        }
         Ok(Err(e)) => {
             s.violation(&format!("cranelift/{class}/compile-err"), e, rp());
             return;
@@ -806,9 +816,13 @@ pub fn c11_check(s: &mut Sink, c: &MemCase, l: &Layout, a: &Arena) {
     let after = a.snapshot(); // MAP_SHARED: the child's effects are visible here
     let canaries = a.pkt.canary_ok() && a.mb.canary_ok() && a.al.canary_ok();
     match end {
-        ChildEnd::Signal(sig) if sig == libc::SIGILL => {
+        // "stops execution with a trap": ud2 (SIGILL) today; a breakpoint trap (SIGTRAP) or an abort from
+        // a trap handler stop execution just as well. SIGSEGV / SIGBUS mean the access was attempted.
+        ChildEnd::Signal(sig) if sig == libc::SIGILL || sig == libc::SIGTRAP || sig == libc::SIGABRT => {
             s.outcome("trap", 1);
-            if exp == Expect::Inside {
+            if exp == Expect::Inside && c.r10_shift != 0 {
+                s.outcome("trap-in-a-program-that-moves-r10(not attributed to the access)", 1);
+            } else if exp == Expect::Inside {
                 s.violation(&format!("cranelift/{class}/trapped-on-in-bounds-access"), format!("an access of {} bytes wholly inside a region trapped", c.w), rp());
             }
             if after != before || !canaries {
